@@ -145,13 +145,13 @@ async def scatter_gather_case(context):
     return check_links(rows, outs[0], [t.persistent_id for t in elems + sizes], f"gathered list after a real scatter of {n}")
 
 
-async def combinator_case(context):
+async def combinator_case(context, shape=None, nx=None, ny=None):
     """a real CombinatorStep: dot(plain, cart(x, y)) (a cross-product scatter combined with a plain input) or a flat dot / cartesian
     product; every emitted token is linked to ALL the input tokens of its combination, nested ones included"""
     from streamflow.workflow.combinator import CartesianProductCombinator, DotProductCombinator
     from streamflow.workflow.step import CombinatorStep
 
-    shape = rng.choice(["dot(plain,cart(x,y))", "dot(a,b)", "cart(x,y)"])
+    shape = shape or rng.choice(["dot(plain,cart(x,y))", "dot(a,b)", "cart(x,y)"])
     wf = Workflow(context=context, name=uniq("c07-c"), config={})
     if shape == "dot(plain,cart(x,y))":
         names = ["plain", "x", "y"]
@@ -174,7 +174,8 @@ async def combinator_case(context):
         comb = CartesianProductCombinator(name=uniq("cart"), workflow=wf)
         for n in names:
             comb.add_item(n)
-        tags = {"x": [f"0.{i}" for i in range(rng.randint(1, 3))], "y": [f"0.{i}" for i in range(rng.randint(1, 2))]}
+        # (with several tokens on one port before a token of the other arrives, ONE arrival yields several combinations)
+        tags = {"x": [f"0.{i}" for i in range(nx or rng.randint(1, 3))], "y": [f"0.{i}" for i in range(ny or rng.randint(1, 3))]}
     ins = {n: wf.create_port() for n in names}
     outs = {n: wf.create_port() for n in names}
     await wf.save(context.database)
@@ -447,6 +448,85 @@ async def deploy_case(context):
         shutil.rmtree(base, ignore_errors=True)
 
 
+async def shared_token_case(context):
+    """one not yet persisted workflow input read by TWO InputInjectorSteps (the same Token object reaches both consumers of the port):
+    both save it at the same time, the first write being slow.  Each output must be linked to it (and to its own job token), and it must
+    be persisted before both"""
+    import posixpath
+    import shutil
+
+    from streamflow.core.config import BindingConfig
+    from streamflow.core.deployment import DeploymentConfig, Target
+    from streamflow.core.workflow import Status
+    from streamflow.workflow.port import ConnectorPort
+    from streamflow.workflow.step import DeployStep, InputInjectorStep, ScheduleStep
+    from streamflow.workflow.token import JobToken
+
+    class PlainInjector(InputInjectorStep):
+        async def process_input(self, job, token_value):
+            return Token(value=token_value, recoverable=True)
+
+    base = tempfile.mkdtemp(prefix="c07i.")
+    db = context.database
+    real_add = db.add_token
+    try:
+        wf = Workflow(context=context, name=uniq("c07-sh"), config={})
+        cfg = DeploymentConfig(name=uniq("site"), type="local", config={}, external=True, lazy=False, workdir=base)
+        dep = wf.create_step(cls=DeployStep, name=posixpath.join("__deploy__", cfg.name), deployment_config=cfg, connector_port=wf.create_port(cls=ConnectorPort))
+        in_port = wf.create_port()
+        injectors = []
+        for side in ("left", "right"):
+            name = "/" + uniq(side)
+            sch = wf.create_step(cls=ScheduleStep, name=posixpath.join(name + "-injector", "__schedule__"), job_prefix=name + "-injector",
+                                 connector_ports={cfg.name: dep.get_output_port()}, binding_config=BindingConfig(targets=[Target(deployment=cfg)]))
+            inj = wf.create_step(cls=PlainInjector, name=name + "-injector", job_port=sch.get_output_port())
+            inj.add_input_port("x", in_port)
+            inj.add_output_port("x", wf.create_port())
+            injectors.append(inj)
+        await wf.save(db)
+
+        def emitted(i):
+            return [t for t in i.get_output_port().token_list if not isinstance(t, TerminationToken)]
+
+        async def slow_add(port, **k):
+            if port == in_port.persistent_id:
+                for _ in range(100):  # the first write of the shared token stays in flight while the other consumer goes on
+                    if any(emitted(i) for i in injectors):
+                        break
+                    await asyncio.sleep(0.02)
+            return await real_add(port=port, **k)
+
+        db.add_token = slow_add
+        tok = Token("hello")
+        in_port.put(tok)
+        in_port.put(TerminationToken())
+        await asyncio.wait_for(StreamFlowExecutor(wf).run(), 60)
+        db.add_token = real_add
+        for inj in injectors:
+            for jt in inj.get_input_port("__job__").token_list:
+                if isinstance(jt, JobToken):
+                    await context.scheduler.notify_status(jt.value.name, Status.COMPLETED)
+        if tok.persistent_id is None:
+            return {"failure": "a workflow input consumed by two injector steps was never persisted"}
+        rows = await provenance(context)
+        for inj in injectors:
+            outs = emitted(inj)
+            if len(outs) != 1:
+                return {"failure": "an injector step did not emit one output", "step": inj.name}
+            jobs = [t.persistent_id for t in inj.get_input_port("__job__").token_list if isinstance(t, JobToken)]
+            bad = check_links(rows, outs[0], [tok.persistent_id] + jobs, f"output of {inj.name}, one of two steps that saved the same input token at once")
+            if bad:
+                return bad
+        return None
+    finally:
+        db.add_token = real_add
+        try:
+            await context.deployment_manager.undeploy_all()
+        except Exception:
+            pass
+        shutil.rmtree(base, ignore_errors=True)
+
+
 async def search(n):
     workdir = tempfile.mkdtemp(prefix="c07.")
     context = build_context({"database": {"type": "default", "config": {"connection": ":memory:"}}, "path": workdir})
@@ -456,6 +536,9 @@ async def search(n):
             bad = await gather_case(context, m, ws)
             if bad:
                 return bad
+        bad = await combinator_case(context, shape="cart(x,y)", nx=3, ny=3) or await shared_token_case(context)
+        if bad:
+            return bad
         for k in range(n):
             bad = await [transformer_case, gather_case, scatter_gather_case, combinator_case, loop_output_case, transfer_case, schedule_case, deploy_case][k % 8](context)
             if bad:
